@@ -124,15 +124,16 @@ async def crowd_scenario(case: dict[str, Any], out: dict[str, Any]) -> None:
             for k in range(case["publishers"]):
                 self.add_component(f"p{k}", make_publisher(k))
 
+    # (two independent trees may well use the same aliases: `c0` of one tree has nothing to do with `c0` of the other)
     class WaiterTree(Component):
         def __init__(self) -> None:
             for i in range(n):
-                self.add_component(f"w{i}", make_waiter(i))
+                self.add_component(f"c{i}", make_waiter(i))
 
     class PublisherTree(Component):
         def __init__(self) -> None:
             for k in range(case["publishers"]):
-                self.add_component(f"p{k}", make_publisher(k))
+                self.add_component(f"c{k}", make_publisher(k))
 
     async def start_all() -> None:
         if case.get("two_trees"):
